@@ -511,7 +511,10 @@ func (s *controlledSelector) HandleBindingRequest(message *stun.Message, local, 
 			// candidate pair state to Failed, and set the checklist state to
 			// Failed.
 			pair.nominateOnBindingSuccess = true
-			pair.deferredNominationValue = nominationValue
+			if nominationValue != nil {
+				// a later plain USE-CANDIDATE keeps the value of a deferred renomination
+				pair.deferredNominationValue = nominationValue
+			}
 		}
 	}
 
